@@ -588,6 +588,25 @@ pub fn directed() -> Vec<Doc> {
                     }
                 }
             }
+            if is_text(format) {
+                // structural tokens inserted at the start, at every line start, behind every
+                // separator and at the end (at most 64 places per object)
+                let mut places: Vec<usize> = vec![0, bytes.len()];
+                for (i, b) in bytes.iter().enumerate() {
+                    if matches!(*b, b'\n' | b'\t' | b'<' | b'>') {
+                        places.push(i + 1);
+                    }
+                }
+                places.sort();
+                places.dedup();
+                places.truncate(64);
+                const TOKENS: [&[u8]; 11] = [b"<", b">", b"<>", b"\r\n", b"\t", b"\r\n\r\n", b"X-Patch-Length: ", b"\t\t\t", b"99999999999999999999", "\u{e9}".as_bytes(), "\u{6f22}".as_bytes()];
+                for at in &places {
+                    for t in TOKENS {
+                        push(C17Doc::Buffer { format: format.to_string(), base: base.clone(), damage: vec![Damage::Insert { off: *at, hex: hex(t) }] }, &mut out);
+                    }
+                }
+            }
             if !is_text(format) {
                 for f in fields_for(format, &bytes) {
                     let orig = damage::read_field(&bytes, &f);
